@@ -35,6 +35,14 @@ func ruleSnapshotOrder(r *Report) {
 	}
 	ok := precedes(open[0], ws[0]) && precedes(ws[0], cp[0])
 	h.Check(ok, "(*column.Collection).Snapshot/order", r.P.InstrPos(ws[0]), "open ≺ state ≺ copy", "the recorder is not opened before the state is written, or the recorded log is not copied after the state: commits applied while the state is written are lost or precede the state in the stream")
+	// the recorder stays installed while the state is written: no uninstall before writeState returned
+	early := false
+	for _, c := range callsTo(fn, false, "(*column.Collection).recorderClose") {
+		if !precedes(ws[0], c) {
+			early = true
+		}
+	}
+	h.Check(!early, "(*column.Collection).Snapshot/recording-while-writing", r.P.InstrPos(ws[0]), "the recorder is uninstalled only after the state was written", "the recorder is uninstalled before (or on a path that does not pass) writeState: the commits applied while the blocks are being written are recorded nowhere")
 	cc, _, _ := callCommon(cp[0])
 	rec, isEx := extractOf(cc.Args[0], 0)
 	same := isEx && rec == open[0].(*ssa.Call) && sameExpr(cc.Args[1], fn.Params[1])
